@@ -23,3 +23,6 @@ for C in $CHECKS; do
 done
 rm -rf $S
 python3 ${VERIF_DIR:-/verif}/tools/translate.py >/dev/null 2>&1
+# evidence written by a run against a scratch tree is not evidence about /repo: put the committed files back
+VD=${VERIF_DIR:-/verif}; [ -d $VD/.git ] && git -C $VD checkout -q -- evidence/ 2>/dev/null
+true
